@@ -20,12 +20,13 @@ def run(tier):
     for kind in KINDS:
         for strat in ("drop", "block", "expand"):
             scen.append({"kind": kind, "strategy": strat, "sinks": "fast", "directed": "afterstop"})
-    for i in range(48 if quick else 600):
-        strat, sinks = ["drop", "block", "expand"][(i // 5) % 3], ["fast", "slow", "panic", "reentrant"][(i // 3) % 4]
-        if strat == "block" and sinks == "reentrant":
-            strat = "drop"      # a sink that re-enters Emit under the blocking strategy waits on the goroutine that is running it (assumption)
-        scen.append({"kind": KINDS[i % len(KINDS)], "strategy": strat, "sinks": sinks,
-                     "workers": rng.choice([4, 6, 8]), "ops": rng.choice([100, 300] if quick else [300, 1000]), "seed": rng.randrange(1 << 30)})
+    # free-running: every query kind x overflow strategy x sink behaviour (the full product), several seeds in the thorough tier
+    combos = [(k, st, sk) for k in KINDS for st in ("drop", "block", "expand") for sk in ("fast", "slow", "panic", "reentrant")
+              if not (st == "block" and sk == "reentrant")]   # a sink that re-enters Emit under the blocking strategy waits on the goroutine that is running it (assumption)
+    for rep in range(1 if quick else 5):
+        for kind, strat, sinks in combos:
+            scen.append({"kind": kind, "strategy": strat, "sinks": sinks,
+                         "workers": rng.choice([4, 6, 8]), "ops": rng.choice([100, 200] if quick else [300, 1000]), "seed": rng.randrange(1 << 30)})
     seqfam.run_scenarios(res, scen, "TraceLifecycle", spec_dir=PIPE, tag="life", sub="life", timeout=3000)
     res.cov["exhaustive"] = False
     res.cov["distinct_nontrivial"] = len({json.dumps(s, sort_keys=True) for s in scen})
